@@ -137,31 +137,35 @@ func c10RunBudgetPart(env *mc.Env) {
 	res := mc.NewResult("C10", "budget", "enumeration")
 	ds := mc.NewDistinctSet()
 	f := c10NewBudFixture()
-	caps := []int{1, 2, 4, 8, 16}
-	thrs := []int64{0, 50, 65, 100}
 	m0, m25 := int64(0), int64(25)
 	mins := []*int64{nil, &m0, &m25}
 	u := func(cpus float64) int64 { return int64(cpus*1e6 + 0.5) }
 	over := int64(-7) // placeholder: capacity + 4 CPUs (above the capacity and above every other member)
-	lsV := []int64{0, u(0.3), u(0.5), u(1), u(3), over}
-	lsrV := []int64{0, u(0.3), u(1)}
-	nolV := []int64{0, u(0.5)}
-	beV := []int64{0, u(3)}
-	hlsV := []int64{0, u(0.5), u(1), over}
-	hbeV := []int64{0, u(1)}
-	sysV := []int64{-u(1), 0, u(0.5), u(1), u(3), over}
-	kubV := []int64{0, u(0.5), u(1), u(3)}
 	type anno struct {
 		u    int64
 		cpus bool
 	}
-	annoV := []anno{{0, false}, {u(0.5), false}, {u(1), false}, {u(2), true}}
+	// quick alphabets
+	caps := []int{2, 8}
+	thrs := []int64{0, 65, 100}
+	lsV := []int64{0, u(0.3), u(1), over}
+	lsrV := []int64{0, u(0.3)}
+	nolV := []int64{0, u(0.5)}
+	beV := []int64{0, u(3)}
+	hlsV := []int64{0, u(0.5), over}
+	hbeV := []int64{0, u(1)}
+	sysV := []int64{-u(1), 0, u(0.5), u(3), over}
+	kubV := []int64{0, u(0.5), u(3)}
+	annoV := []anno{{0, false}, {u(1), false}, {u(2), true}}
 	if env.Thorough() {
+		caps = []int{1, 2, 4, 8, 16}
+		thrs = []int64{0, 1, 65, 100}
 		lsV = []int64{0, 500, u(0.3), u(0.5), u(1), u(1.7), u(3), over} // 500u = half a milli
 		lsrV = []int64{0, u(0.3), u(1), u(2.25)}
+		hlsV = []int64{0, u(0.5), u(1), over}
 		sysV = []int64{-u(1), 0, u(0.1), u(0.5), u(1), u(3), over}
 		kubV = []int64{0, u(0.5), u(0.7), u(1), u(3)}
-		thrs = []int64{0, 1, 50, 65, 100}
+		annoV = []anno{{0, false}, {u(0.5), false}, {u(1), false}, {u(2), true}}
 	}
 	rx := mc.Radix{Dims: []int{len(caps), len(thrs), len(mins), len(lsV), len(lsrV), len(nolV), len(beV), len(hlsV), len(hbeV), len(sysV), len(kubV), len(annoV), 2}}
 	val := func(v int64, n int) int64 {
@@ -187,6 +191,12 @@ func c10RunBudgetPart(env *mc.Env) {
 	// dimensions that are non-BE consumption, ordered by amount: LS, LSR, unlabelled pod, LS host app, system, kubelet reservation, annotation reservation
 	monoDims := []int{3, 4, 5, 7, 9, 10, 11}
 	monoName := map[int]string{3: "ls-pod-usage", 4: "lsr-pod-usage", 5: "unlabelled-pod-usage", 7: "hostapp-usage", 9: "system-usage", 10: "kubelet-reservation", 11: "annotation-reservation"}
+	// pass 1: run and judge every case, remember its budget; pass 2: neighbour comparison on the remembered budgets
+	const notRun = int32(-1 << 31)
+	vals := make([]int32, rx.Size())
+	for i := range vals {
+		vals[i] = notRun
+	}
 	done, complete := env.ParallelRangeL(res, rx.Size(), func(l *mc.Local, i int64) {
 		d := rx.Decode(i, make([]int, 0, 13))
 		c := build(d)
@@ -200,14 +210,14 @@ func c10RunBudgetPart(env *mc.Env) {
 			res.Violate(mc.Violation{Key: "C10|budget|panic|" + c10PanicKind(ps), What: "agent crash: calculateBESuppressCPU panicked: " + c10PanicHead(ps), Replay: c})
 			return
 		}
+		vals[i] = int32(got)
 		exact := c10BudExact(c)
 		dev := got*1000 - exact
 		if dev < 0 || dev > c10Band {
 			res.Violate(mc.Violation{Key: "C10|budget|formula", What: fmt.Sprintf("budget %d milli, statement gives %d micro-CPUs (deviation %d micro, accepted band [0,%d]); case %+v min=%v", got, exact, dev, c10Band, *c, c10PtrStr(c.Min)), Replay: c})
 			return
 		}
-		dy := dyadic(c)
-		if dy {
+		if dyadic(c) {
 			l.Max("max_deviation_micro_dyadic_inputs", dev)
 		} else {
 			l.Max("max_deviation_micro_other_inputs", dev)
@@ -231,25 +241,47 @@ func c10RunBudgetPart(env *mc.Env) {
 		} else if c.Sys > rsv {
 			l.Count("system_usage_exceeds_reservation", 1)
 		}
-		// neighbour monotonicity: raising one non-BE input to the next value of its alphabet never raises the budget
+		h := fnv.New64a()
+		fmt.Fprint(h, d, got)
+		ds.AddHash(h.Sum64())
+		if i%300007 == 11 {
+			res.Sample(fmt.Sprintf("%+v min=%v -> %d milli (statement %d micro)", *c, c10PtrStr(c.Min), got, exact))
+		}
+	})
+	// stride of dimension k in the case index
+	stride := make([]int64, len(rx.Dims))
+	st := int64(1)
+	for k, dim := range rx.Dims {
+		stride[k] = st
+		st *= int64(dim)
+	}
+	res2 := mc.NewResult("C10", "budget", "enumeration") // scratch accumulator for pass 2 counters (merged below)
+	_, complete2 := env.ParallelRangeL(res2, rx.Size(), func(l *mc.Local, i int64) {
+		if vals[i] == notRun {
+			return
+		}
+		d := rx.Decode(i, make([]int, 0, 13))
+		var c *c10BudCase
 		for _, k := range monoDims {
 			if d[k]+1 >= rx.Dims[k] {
 				continue
 			}
-			d2 := append([]int{}, d...)
-			d2[k]++
-			c2 := build(d2)
-			if c2.KubeletR > int64(c2.N)*1e6 {
+			j := i + stride[k]
+			if vals[j] == notRun {
 				continue
 			}
-			got2, ps2 := c10BudRun(f, c2)
-			if ps2 != "" {
-				continue // reported when that case is enumerated itself
+			if c == nil {
+				c = build(d)
 			}
+			d[k]++
+			c2 := build(d)
+			d[k]--
+			// neighbour monotonicity: raising one non-BE input to the next value of its alphabet never raises the budget
 			tol := int64(0)
-			if !dy || !dyadic(c2) {
+			if !dyadic(c) || !dyadic(c2) {
 				tol = c10Band / 1000 // map-order dependent float summation may move each truncation by one milli
 			}
+			got, got2 := int64(vals[i]), int64(vals[j])
 			l.Count("monotone_neighbour_checked", 1)
 			if got2 < got {
 				l.Count("monotone_strict_decrease", 1)
@@ -258,13 +290,11 @@ func c10RunBudgetPart(env *mc.Env) {
 				res.Violate(mc.Violation{Key: "C10|budget|not-monotone|" + monoName[k], What: fmt.Sprintf("budget grows from %d to %d milli when %s grows; case %+v -> %+v", got, got2, monoName[k], *c, *c2), Replay: c})
 			}
 		}
-		h := fnv.New64a()
-		fmt.Fprint(h, d, got)
-		ds.AddHash(h.Sum64())
-		if i%300007 == 11 {
-			res.Sample(fmt.Sprintf("%+v min=%v -> %d milli (statement %d micro)", *c, c10PtrStr(c.Min), got, exact))
-		}
 	})
+	for k, v := range res2.Counters {
+		res.Count(k, v)
+	}
+	complete = complete && complete2
 	res.Traces = res.Evaluations
 	res.Distinct = ds.Len()
 	res.Exhaustive = complete
